@@ -1,1 +1,8 @@
 import XPathV.Theorems.C06
+#print axioms XPathV.Theorems.C06.cycles_guarded
+#print axioms XPathV.Theorems.C06.guards_present
+#print axioms XPathV.Theorems.C06.panics_become_errors
+#print axioms XPathV.Theorems.C06.nil_query_checked
+#print axioms XPathV.Theorems.C06.C06_exactly_one
+#print axioms XPathV.Theorems.C06.sequence_depth_guarded
+#print axioms XPathV.Theorems.C06.expression_depth_guarded
